@@ -273,3 +273,5 @@ LEVEL_TEXT = (
 )
 LEVEL_NOTE = "Trusted: rustc MIR; std HashMap/Entry; Arc::make_mut. Not decided: that a registered closure does what its registration says."
 TECHNIQUE = "dominance of checks over mutations + loop-order analysis + who-may-mutate (receiver provenance)"
+
+WITNESSES = {"C13TablePrivate": ("E0616", "Methods.callbacks is private")}
